@@ -2,6 +2,7 @@
 MongoDB Storage and Migrations for Policies.
 """
 
+import json
 import logging
 import copy
 import re
@@ -190,7 +191,9 @@ class MongoStorage(Storage):
             compiled_field_name = self.condition_field_compiled_name(field)
             if compiled_field_name in doc:
                 del doc[compiled_field_name]
-        return Policy.from_json(b_json.dumps(doc))
+        # plain json writes a non-finite float as the token the JSON text of the policy had (Infinity, NaN);
+        # bson's relaxed mode would turn it into a {'$numberDouble': ...} dictionary that no rule understands
+        return Policy.from_json(json.dumps(doc, default=b_json.default))
 
     def __feed_policies(self, cursor):
         """
